@@ -175,6 +175,10 @@ def applyFates : Option HeadInfo → List (HeadInfo × Fate) → ActTbl → ActT
   | some w, (h, .cowin) :: r, t => applyFates (some w) r (cowinEffect w h t)
   | cw, _ :: r, t => applyFates cw r t
 
+/-- number of context references re-pointed to the winner's action: Σ nrefs over the co-winners that hold an action -/
+def cowinRefs (fs : List (HeadInfo × Fate)) : Nat :=
+  ((fs.filter (fun p => p.2 == .cowin && p.1.act.isSome)).map (·.1.nrefs)).sum
+
 /-- (flow uid, old action uid, new action uid) replacements in `action_uids` / context -/
 def repoints : Option HeadInfo → List (HeadInfo × Fate) → List (Nat × Nat × Nat)
   | _, [] => []
